@@ -611,7 +611,7 @@ func c06IsEmptinessTest(cond ssa.Value, line ssa.Value) bool {
 			return false
 		}
 		bn, ok := cl.Call.Value.(*ssa.Builtin)
-		return ok && bn.Name() == "len" && cl.Call.Args[0] == line
+		return ok && bn.Name() == "len" && c06IsLineVar(cl.Call.Args[0], line, 0)
 	}
 	konst := func(v ssa.Value) (int64, bool) { return c08ConstInt(v) }
 	op := bo.Op
@@ -650,4 +650,32 @@ func c06IsEmptinessTest(cond ssa.Value, line ssa.Value) bool {
 		return true
 	}
 	return false
+}
+
+// c06IsLineVar: v is the line itself, or a variable (phi) that only ever holds the line or an empty/nil value
+// (the loop-condition form "for len(b) == 0 { b, err = source() … }").
+func c06IsLineVar(v, line ssa.Value, depth int) bool {
+	if v == line {
+		return true
+	}
+	phi, ok := v.(*ssa.Phi)
+	if !ok || depth > 4 {
+		return false
+	}
+	hasLine := false
+	for _, e := range phi.Edges {
+		switch {
+		case e == ssa.Value(phi):
+		case e == line:
+			hasLine = true
+		case core.IsNilConst(e) || core.IsZeroConst(e):
+		default:
+			if _, isPhi := e.(*ssa.Phi); isPhi && c06IsLineVar(e, line, depth+1) {
+				hasLine = true
+				continue
+			}
+			return false
+		}
+	}
+	return hasLine
 }
